@@ -74,7 +74,7 @@ def r1(ctx):
     n = 0
     for tname, t in T.TRACKERS.items():
         pb = ctx.anchor(R, t['predict'])
-        lb = ctx.anchor(R, t['loop'])
+        lb = ctx.anchor(R, T.result_path(t))
         if pb is None or lb is None:
             continue
         # (a) candidate chain in predict
@@ -114,10 +114,47 @@ def r1(ctx):
                           'the candidate-construction closure builds %s tracks per detection' % (r,))
         # (b) the loop consumes the candidate vector in order
         ebl = ExprBuilder(lb)
-        pushes = [c for c in lb.find_calls('std::vec::Vec::push') if 'SortTrack' in lb.locals[c.args[1]['pl']['l']]]
-        n += 1
-        if not pushes:
+        if lb.kind == 'Closure' and lb is not pb:
+            # map/collect form: the per-candidate decision is a closure that RETURNS the record; `map` yields exactly
+            # one record per candidate, in order, provided the chain around it neither drops nor reorders
+            from lib import adaptor_of_closure
+            n += 1
+            ctx.check('SortTrack' in lb.locals[0] and 'Option' not in lb.locals[0], R, lb, tname + ':record-push',
+                      'the per-candidate closure returns the record',
+                      'the per-candidate closure returns %s (expected one record per candidate)' % lb.locals[0])
+            apb, ac = adaptor_of_closure(F, pb, lb)
+            n += 1
+            okad = apb is pb and ac is not None and ac.name == 'map'
+            it = ExprBuilder(pb).arg(ac, 0) if okad else None
+            names = [x.name.rsplit('::', 1)[-1] for x in it.walk() if x.kind == 'call'] if it is not None else []
+            bad = [nm for nm in names if nm in DENY]
+            okit = okad and any(y.kind == 'call' and y.name.endswith('collect') for y in it.walk()) and \
+                it.has_place(root=('param', 3))
+            ctx.check(okit and not bad, R, pb, tname + ':loop-over-candidates', 'maps over %s' % names[:6],
+                      'the records are not produced by mapping the candidate vector in order (adaptor %s, '
+                      'order-breaking operations %s)' % (ac.name if ac else None, bad))
+            n += 1
+            ctx.ok(R, lb, tname + ':one-record-per-candidate', 'one value returned per element of map()')
+            res = ExprBuilder(pb).place(0, ()).strip()
+            rn = [x.name.rsplit('::', 1)[-1] for x in res.walk() if x.kind == 'call']
+            n += 1
+            same = res.kind == 'call' and res.name.rsplit('::', 1)[-1] in ('collect', 'collect_vec') and any(
+                x.kind == 'call' and x.extra is ac for x in res.walk()) and not [nm for nm in rn if nm in DENY]
+            ctx.check(same, R, pb, tname + ':pushed-vector-is-the-result', 'result = collect(map(candidates))',
+                      'the vector returned (%r) is not the collected records of the per-candidate map' % res)
+            pushes = None
+        else:
+            pushes = [c for c in lb.find_calls('std::vec::Vec::push') if 'SortTrack' in lb.locals[c.args[1]['pl']['l']]]
+        if pushes is None:
+            pass
+        elif not pushes:
+            n += 1
             ctx.fail(R, lb, tname + ':record-push', 'ANCHOR-MISSING: no push of a record into the result vector')
+            continue
+        else:
+            n += 1
+        if pushes is None:
+            n += deny_scan(ctx, R, F, tname, pb, lb)
             continue
         push = pushes[0]
         loops = [h for h, blks in lb.loops().items() if push.bb in blks]
@@ -181,24 +218,30 @@ def r1(ctx):
         same = out_e is not None and out_e.kind == 'call' and vec.kind == 'call' and out_e.extra is vec.extra
         ctx.check(same, R, lb, tname + ':pushed-vector-is-the-result', 'result = the vector the records are pushed to',
                   'the vector returned / sent (%r) is not the one the records are pushed to (%r)' % (out_e, vec))
-        # (d) deny-list operations applied to tracked vectors anywhere in the pipeline bodies
-        bodies = {pb.npath: pb, lb.npath: lb}
-        for cb in all_closures(F, pb) + all_closures(F, lb):
-            bodies[cb.npath] = cb
-        for b in bodies.values():
-            for c in b.find_calls():
-                if c.name not in DENY or not c.args:
-                    continue
-                a0 = c.args[0]
-                if a0['k'] not in ('copy', 'move'):
-                    continue
-                ty = b.locals[a0['pl']['l']]
-                if ('Vec<' in ty or 'Iter' in ty or '[' in ty) and tracked_type(ty) and 'HashMap' not in ty:
-                    n += 1
-                    ctx.fail(R, b, tname + ':order-breaking-op:' + c.name,
-                             '`%s` is applied to %s in the predict pipeline: records are no longer one per detection '
-                             'in submission order' % (c.name, ty[:80]), c.ln)
+        n += deny_scan(ctx, R, F, tname, pb, lb)
     ctx.floor(R, n, 24)
+
+
+def deny_scan(ctx, R, F, tname, pb, lb):
+    """(d) deny-list operations applied to tracked vectors anywhere in the pipeline bodies"""
+    n = 0
+    bodies = {pb.npath: pb, lb.npath: lb}
+    for cb in all_closures(F, pb) + all_closures(F, lb):
+        bodies[cb.npath] = cb
+    for b in bodies.values():
+        for c in b.find_calls():
+            if c.name not in DENY or not c.args:
+                continue
+            a0 = c.args[0]
+            if a0['k'] not in ('copy', 'move'):
+                continue
+            ty = b.locals[a0['pl']['l']]
+            if ('Vec<' in ty or 'Iter' in ty or '[' in ty) and tracked_type(ty) and 'HashMap' not in ty:
+                n += 1
+                ctx.fail(R, b, tname + ':order-breaking-op:' + c.name,
+                         '`%s` is applied to %s in the predict pipeline: records are no longer one per detection '
+                         'in submission order' % (c.name, ty[:80]), c.ln)
+    return n
 
 
 def agg_fields(e):
@@ -238,7 +281,17 @@ def r2(ctx):
         if 'Visual' in b.npath or 'visual_sort' in b.npath:
             n += 1
             vt = m.get('voting_type')
-            ctx.check(vt is not None and vt.has_field('voting_type') and vt.has_call('unwrap_or'), R, b,
+            # attrs.voting_type when present, else Positional: `unwrap_or`, `match`, `if let`, `map_or` alike
+            def vt_ok(e):
+                if e is None or not e.has_field('voting_type'):
+                    return False
+                if e.has_call('unwrap_or') or e.has_call('unwrap_or_else') or e.has_call('map_or'):
+                    return 'Positional' in repr(e)
+                alts = e.args if e.kind == 'phi' else [e]
+                some = [a for a in alts if a.has_field('voting_type')]
+                dflt = [a for a in alts if not a.has_field('voting_type')]
+                return bool(some) and len(dflt) == 1 and 'Positional' in repr(dflt[0])
+            ctx.check(vt_ok(vt), R, b,
                       'record.voting_type', repr(vt)[:90], 'VisualSORT record voting type is not '
                       'attrs.voting_type.unwrap_or(Positional): %r' % vt)
     # attribute merge copies exactly other's values
@@ -295,7 +348,7 @@ def r3(ctx, R='R01.3'):
         ctx.check(len(writes) >= 1, R, adt, tname + ':counter-writes', '%d write site(s)' % len(writes),
                   'no increment of the id counter found')
         # constructor starts at a constant; new ids: set_track_id(gen) before add_track
-        lb = ctx.anchor(R, t['loop'])
+        lb = ctx.anchor(R, T.result_path(t))
         if lb is None:
             continue
         n += check_new_ids(ctx, R, lb, tname, lambda e: e.kind == 'call' and F.get(e.name) and any(
@@ -303,7 +356,7 @@ def r3(ctx, R='R01.3'):
     for tname, t in T.TRACKERS.items():
         if not t['batch']:
             continue
-        lb = ctx.anchor(R, t['loop'])
+        lb = ctx.anchor(R, T.result_path(t))
         if lb is None:
             continue
         eb = ExprBuilder(lb)
@@ -378,7 +431,7 @@ def r4(ctx):
     ctx.rule(R, 'the record is read back from the store under the id chosen in this iteration')
     n = 0
     for tname, t in T.TRACKERS.items():
-        lb = ctx.anchor(R, t['loop'])
+        lb = ctx.anchor(R, T.result_path(t))
         if lb is None:
             continue
         eb = ExprBuilder(lb)
@@ -390,12 +443,15 @@ def r4(ctx):
             n += 1
             record_source(ctx, R, lb, eb, tname, fr)
         # merge destination = winner; merge source = the candidate; classes [0]; history off
+        from lib import subst_upvars
         for me in lb.find_calls('track::store::TrackStore::merge_external'):
-            dest = eb.arg(me, 1)
+            dest = subst_upvars(ctx.F, lb, eb.arg(me, 1))
             src = eb.arg(me, 2).strip()
             hist = eb.arg(me, 4)
             n += 1
-            ok = dest.has_call('winners') and dest.has_call('get') and src.has_call('next') and hist.kind == 'const' \
+            # "this candidate": the element of the result loop, or the parameter of the per-candidate closure
+            is_cand = src.has_call('next') or (lb.kind == 'Closure' and src.kind == 'place' and src.root == ('param', 2))
+            ok = dest.has_call('winners') and dest.has_call('get') and is_cand and hist.kind == 'const' \
                 and hist.const.get('v') is False
             ctx.check(ok, R, lb, tname + ':merge(winner, candidate, history off)', '',
                       'merge_external is not called as (winner id, this candidate, [0], false)', me.ln)
@@ -409,7 +465,9 @@ def r4(ctx):
 
 
 def record_source(ctx, R, lb, eb, tname, fr):
-    a = eb.arg(fr, 0)
+    from lib import subst_upvars
+    F = ctx.F
+    a = subst_upvars(F, lb, eb.arg(fr, 0))
     froms = [fr]
     gets = [x for x in a.walk() if x.kind == 'call' and x.name.endswith('HashMap::get')]
     gs = a.calls('get_store')
@@ -422,8 +480,8 @@ def record_source(ctx, R, lb, eb, tname, fr):
         detail = 'key alternatives: %s' % [repr(x)[:60] for x in alts]
         sets = lb.find_calls('track::Track::set_track_id')
         me = lb.find_calls('track::store::TrackStore::merge_external')
-        dests = [repr(eb.arg(m, 1).strip()) for m in me]
-        fresh_ids = [repr(eb.arg(s_, 1).strip()) for s_ in sets]
+        dests = [repr(subst_upvars(F, lb, eb.arg(m, 1)).strip()) for m in me]
+        fresh_ids = [repr(subst_upvars(F, lb, eb.arg(s_, 1)).strip()) for s_ in sets]
         ok = bool(alts) and repr(shard) == repr(key)
         for x in alts:
             if x.has_call('winners'):
